@@ -2343,9 +2343,11 @@ class Problem(object, metaclass=ProblemMetaclass):
                 if set_later(name):
                     continue
 
+                # Use the absolute name of the recorded output whenever the model has it.  The
+                # promoted name of an auto_ivc output is the name of the inputs it feeds, and
+                # setting it through those would apply the units (and indices) of each input.
                 abs_name = abs_names.get(name)
-                if not resolver.is_prom(name) and isinstance(abs_name, str) and \
-                        resolver.is_abs(abs_name, 'output'):
+                if isinstance(abs_name, str) and resolver.is_abs(abs_name, 'output'):
                     if not set_later(abs_name):
                         model.set_val(abs_name, outputs[name])
 
